@@ -727,6 +727,8 @@ func (e *Engine) jsonIntrinsic(fn *ssa.Function, full string, args []Value) (Val
 		return nil, true
 	case "(*bytes.Buffer).Grow":
 		return nil, true
+	case "(*bytes.Buffer).AvailableBuffer":
+		return SliceVal{arr: &ArrayVal{}, len: 0, cap: 0}, true // an empty slice to append to
 	case "(*bytes.Buffer).Write":
 		p := args[0].(PtrVal)
 		if sl, ok := args[1].(SliceVal); ok { // plain bytes: text
